@@ -312,6 +312,7 @@ def gen(tier: str, seed: int) -> list[Case]:
     cfg = c10.make_cfg(gated)
     cfg.p_multiword = 0.5
     cfg.p_reexport = 0.6
+    cfg.private_bases = True  # inherited members next to attributes whose names change under conversion
     rng2 = rng_for(seed, PID, "general-packages")
     for j in range(6 if tier == "quick" else 250):
         pkg = pg.random_pkg(rng2, cfg)
